@@ -1,7 +1,8 @@
 // Package c13: the RP's remote JWKS key set is correct under concurrency, rotation and fetch failures (property C13).
 //
 // A case is a schedule program: key set versions, and phases of callers (token + context plan) with the endpoint's script for
-// that phase and the order of the events {caller i arrives, caller i's context is cancelled, the endpoint answers}. The
+// that phase and the order of the events {caller i arrives, caller i's context is cancelled, the deadline of caller i's
+// context passes, the endpoint answers}. The
 // program is executed deterministically against rp.NewRemoteKeySet (see world_test.go / sched_test.go) and judged by a
 // model written from the statement (model_test.go).
 package c13
@@ -43,22 +44,33 @@ type Doc struct {
 
 // Caller is one VerifySignature call (storm phases: Reps calls in a row) with a token signed by pool key Key with alg Alg
 // and header kid Kid ("" = no kid header). Kind is the generator's intent (label only; the model judges the concrete values).
+//
+// Ctx is the kind of context the caller brings: "" = a cancellable context without deadline; "far" = a context with a
+// deadline an hour away (context.WithTimeout with a generous timeout: Deadline() reports it, it never passes within the
+// case); "near" = a context whose deadline lies DeadlineMs milliseconds after the caller's arrival (context.WithTimeout
+// right before the call) and passes - as far as the caller can observe: Done() is closed, Err() = DeadlineExceeded - when
+// the harness applies the event "expire" of that caller, never earlier (see sched_test.go).
 type Caller struct {
-	Kind string `json:"kind"`
-	Key  string `json:"key"`
-	Alg  string `json:"alg"`
-	Kid  string `json:"kid"`
-	Reps int    `json:"reps,omitempty"`
+	Kind       string `json:"kind"`
+	Key        string `json:"key"`
+	Alg        string `json:"alg"`
+	Kid        string `json:"kid"`
+	Reps       int    `json:"reps,omitempty"`
+	Ctx        string `json:"ctx,omitempty"`
+	DeadlineMs int    `json:"deadline_ms,omitempty"`
 }
 
 // Event: "arrive" (caller starts its call), "cancel" (the caller's context is cancelled: before its arrival = cancelled
-// before the call, after = cancelled while waiting, after its return = no effect), "release" (the endpoint answers).
+// before the call, after = cancelled while waiting, after its return = no effect), "expire" (callers with Ctx "near" only:
+// the deadline of the caller's context passes: before its arrival = the deadline is already in the past when the call
+// starts, after = it passes while the caller waits, after its return = no effect), "release" (the endpoint answers).
 type Event struct {
 	Op     string `json:"op"`
 	Caller int    `json:"caller"`
 }
 
-// Phase: Mode "sched" executes Events one by one, each awaited; a missing release is appended. Mode "storm" opens the gate,
+// Phase: Mode "sched" executes Events one by one, each awaited; a missing release (and, after it, the missing expire of every
+// "near" caller: a deadline that is reported also passes) is appended. Mode "storm" opens the gate,
 // starts all callers at once without any harness ordering (race detector + order-independent part of the oracle).
 type Phase struct {
 	Mode    string   `json:"mode"`
@@ -326,10 +338,20 @@ func genCase(t *rapid.T) Case {
 			if ph.Mode == "storm" {
 				ca.Reps = rapid.IntRange(1, 3).Draw(t, "reps")
 			}
+			// context plan: mostly a plain cancellable context; sometimes one that carries a deadline
+			switch rapid.IntRange(0, 11).Draw(t, "ctxplan") {
+			case 0:
+				ca.Ctx = "far"
+			case 1:
+				if ph.Mode == "sched" {
+					ca.Ctx = "near"
+					ca.DeadlineMs = rapid.SampledFrom(nearDeadlinesMs).Draw(t, "deadline")
+				}
+			}
 			ph.Callers = append(ph.Callers, ca)
 		}
 		if ph.Mode == "sched" {
-			ph.Events = genEvents(t, n)
+			ph.Events = genEvents(t, ph.Callers)
 		}
 		c.Phases = append(c.Phases, ph)
 		switch ph.Fetch.Kind {
@@ -340,16 +362,28 @@ func genCase(t *rapid.T) Case {
 	return c
 }
 
-func genEvents(t *rapid.T, n int) []Event {
+// nearDeadlinesMs: how long after its arrival the deadline of a "near" caller lies. Short on purpose: the harness has to let
+// that much wall-clock time go by when it applies the "expire" event (nothing is decided by it, see pauseUntil).
+var nearDeadlinesMs = []int{5, 10, 20}
+
+// genEvents orders the events of a sched phase. It may turn the first caller into a "near" caller (callers is the phase's
+// slice: the plan is part of the case).
+func genEvents(t *rapid.T, callers []Caller) []Event {
+	n := len(callers)
 	var evs []Event
 	for i := 0; i < n; i++ {
 		evs = append(evs, Event{Op: "arrive", Caller: i})
 		if rapid.IntRange(0, 3).Draw(t, "cancel?") == 0 {
 			evs = append(evs, Event{Op: "cancel", Caller: i})
 		}
+		// a missing expire is appended after the release (the deadline passes after the call)
+		if callers[i].Ctx == "near" && rapid.IntRange(0, 3).Draw(t, "expire?") > 0 {
+			evs = append(evs, Event{Op: "expire", Caller: i})
+		}
 	}
 	evs = rapid.Permutation(evs).Draw(t, "order")
-	// the owner-cancel shape (first arrival, others parked, first cancelled) is a tiny region: build it on purpose sometimes
+	// the shape "first arrival, others parked, the first caller's context ends" is a tiny region: build it on purpose
+	// sometimes, with either way a context can end (explicit cancellation, deadline)
 	if n >= 2 && rapid.IntRange(0, 5).Draw(t, "ownercancel") == 0 {
 		first := -1
 		var arr, rest []Event
@@ -363,8 +397,16 @@ func genEvents(t *rapid.T, n int) []Event {
 				rest = append(rest, e)
 			}
 		}
+		end := Event{Op: "cancel", Caller: first}
+		if rapid.IntRange(0, 2).Draw(t, "ownerend") == 0 {
+			end.Op = "expire"
+			if callers[first].Ctx != "near" {
+				callers[first].Ctx = "near"
+				callers[first].DeadlineMs = rapid.SampledFrom(nearDeadlinesMs).Draw(t, "ownerdeadline")
+			}
+		}
 		k := rapid.IntRange(1, len(arr)).Draw(t, "ocpos")
-		evs = append(append([]Event{}, arr[:k]...), Event{Op: "cancel", Caller: first})
+		evs = append(append([]Event{}, arr[:k]...), end)
 		evs = append(evs, arr[k:]...)
 		evs = append(evs, rest...)
 	}
@@ -396,10 +438,12 @@ func classKey(c Case, sum *summary) string {
 var prop = vkit.Prop[Case]{
 	ID: "C13",
 	Rule: "case = schedule program: 2-4 key set versions (1-4 keys, with/without kid, use sig/empty/enc, RSA/EC/Ed25519), SkipRemoteCheck on/off, 1-4(5) phases; " +
-		"phase = 1-6(8) callers (token of a cached / newly served / retired key, unknown kid, kid-less, wrong key under a published kid) + endpoint script " +
+		"phase = 1-6(8) callers (token of a cached / newly served / retired key, unknown kid, kid-less, wrong key under a published kid; context plan: " +
+		"cancellable without deadline / deadline an hour away / deadline 5-20 ms after the arrival) + endpoint script " +
 		"(serve version v with optional unusable entries, zero keys, 5xx/404, error status with a valid body, bad JSON, null, wrong JSON type, HTML, transport error, broken body) + " +
-		"event order over {arrive i, cancel i, release}, executed one awaited event at a time; storm phases start all callers unordered under the race detector; " +
-		"non-trivial = some phase has >=2 callers parked on one download and a rotation, failure or cancellation event; " +
+		"event order over {arrive i, cancel i, deadline of i passes (before the call / while waiting / after the return), release}, executed one awaited event at a time; " +
+		"storm phases start all callers unordered under the race detector; " +
+		"non-trivial = some phase has >=2 callers parked on one download and a rotation, failure, cancellation or deadline event; " +
 		"distinct = (SkipRemoteCheck, per phase: mode, script kind, event pattern with owner/waiter roles, per caller token class and verdict)",
 	Gen:   genCase,
 	Run:   run,
